@@ -2,6 +2,12 @@
 and the signature function that labels a failing case for known_findings.jsonl."""
 
 PROPS = {
+    'C18': {
+        'families': [('c18', 25, 250)],
+        'rule': 'random source trees on disk (regular files of 0 B .. several 256 KiB chunks, nested directories, empty directories, symlinks with relative / absolute / dangling targets, unicode and odd names; thorough: one directory wide enough to be HAMT-sharded) x --version {1,2} x --no-wrap / wrapped with 1-3 arguments (directories and plain files) packed by the BUILT car binary; the engine (BuildUnixFSRecursive) is replayed in process to record the blocks in put order and the root; the model session (proxy root, those puts, Finalize, ReplaceRootsInFile) must predict the archive the binary wrote BYTE FOR BYTE; car root must print the header root = the engine root; the archive is extracted by the binary from the file or from a pipe on stdin into an empty directory and the model (fed the recorded engine trace) must predict the whole extracted tree, which S requires to equal the source tree (names, contents, link targets); distinct = distinct script text',
+        'trusted': ['go-unixfsnode: BuildUnixFSRecursive / Reify / file reassembly (parameters: recorded block sequence and recorded trace; that the trace of the built DAG denotes the source tree is checked on every run, not proved)', 'the file-system model (see C17)'],
+        'assumptions': ['entry names are valid file names (no separator, not . or ..), unique per directory: true of every tree read from a file system', 'file modes, ownership and timestamps are not part of the tree (UnixFS as written by car create does not carry them)'],
+    },
     'C17': {
         'families': [('c17', 150, 1500)],
         'rule': 'random UnixFS DAGs built block by block (plain and HAMT-sharded directories, raw / inline / chunked files incl. a chunk missing from the archive, symlinks, absent blocks, undecodable nodes, nesting depth <= 3) over a hostile name alphabet (.., ../x, a/b, /abs, empty, ., x/../.., repeated names, a symlink followed by an entry of the same name) and hostile symlink targets (absolute into the sandbox, relative escapes, dangling, ., .., /), 1-3 roots incl. file / raw / missing roots, CARv1 and CARv2; extracted by lib.ExtractToDir root by root (the CLI loop) into a real sandbox directory: output directory empty / pre-populated with files, directories and symlinks / reached through a symlink / missing / a regular file; the engine trace (what go-unixfsnode hands to extractDir) is recorded by a dry walk and given to the model, which must predict the verdict and the WHOLE resulting tree (names, kinds, contents, link targets) of the sandbox; S: nothing outside the resolved output directory differs from the snapshot taken before; distinct = distinct script text',
@@ -186,6 +192,12 @@ def signature(pid, script, I, S):
         return 'C09/' + toks.get('ep', '?') + '-panic-alloc-or-class'
     if pid == 'C08':
         return 'C08/' + toks.get('api', '?') + '-concurrent-run-' + ('race' if 'race=1' in I else 'inconsistent')
+    if pid == 'C18':
+        if fam == 'extract':
+            return 'C18/extract-does-not-reproduce-the-tree'
+        if fam == 'root':
+            return 'C18/printed-root-differs'
+        return 'C18/archive-' + fam + '-differs'
     if pid == 'C17':
         return 'C17/extract-writes-outside-output-dir'
     if pid == 'C15':
